@@ -149,6 +149,8 @@ class Replayer:
 					fail('output-header', f'output of {m}: the specification has the header of another version here, the file says {real["header"].get("version")}')
 			elif hdr_variant is not None and real['header']['module']['hash'] != source_hash(self.graph, m, spec['hdr'][m]):
 				fail('output-header', f'output of {m}: header hash is not that of variant {spec["hdr"][m]}')
+			elif real['header'].get('version') == '0.9.9':
+				fail('output-header', f'output of {m}: the specification has a header of the current version here, the file still carries the one another version left')
 			expect_body = self.oracle.body(m, spec['body'])
 			self.stats['texts_compared'] += 1
 			if real['body'] != expect_body:
